@@ -89,18 +89,24 @@ Fixpoint star_search (t : tree) (pkgs : list path) (k : key) (acc : option path)
   | pk :: pkgs' => star_search t pkgs' k (if exists_cls t (pk ++ [k]) then Some (pk ++ [k]) else acc)
   end.
 
-(* ast.py:629-693 _find_class for a simple name k, started at the class whose REVERSED path is rp
-   (so the parent is the tail): own classes, then the import memo, then the unqualified imports,
-   then the parent.  Import packages are named by their path from the root. *)
-Fixpoint find (t : tree) (xm : xmap) (rp : list key) (k : key) : option path :=
+(* ast.py:629-693 _find_class for the (possibly dotted) name k.ks, started at the class whose REVERSED
+   path is rp (so the parent is the tail): own classes, then the import memo, then the unqualified
+   imports, then the parent.  A stage whose candidate for k has no ks below it raises
+   ClassNotFoundError, which the code catches and continues with the parent.  Import packages are
+   named by their path from the root.
+   sd ("star descends"): true = after the unqualified-import search found package.k the code looks
+   ks up inside it (fixes/C05_import_dotted.diff); false = the code as it was before that repair: the
+   class found for the FIRST name is returned whatever ks is (ast.py:667-685). *)
+Fixpoint find (sd : bool) (t : tree) (xm : xmap) (rp : list key) (k : key) (ks : list key) : option path :=
   let p := rev rp in
-  if exists_cls t (p ++ [k]) then Some (p ++ [k])                         (* ast.py:643-645 *)
+  if exists_cls t (p ++ k :: ks) then Some (p ++ k :: ks)                  (* ast.py:643-648 *)
   else
-    let up := match rp with [] => None | _ :: rp' => find t xm rp' k end in   (* ast.py:688-690 *)
+    let up := match rp with [] => None | _ :: rp' => find sd t xm rp' k ks end in   (* ast.py:688-690 *)
     match kassoc k (memo (xget xm p)) with
-    | Some q => if exists_cls t q then Some q else up                     (* ast.py:650-663 *)
-    | None => match star_search t (stars (xget xm p)) k None with        (* ast.py:665-683 *)
-              | Some q => Some q
+    | Some q => if exists_cls t (q ++ ks) then Some (q ++ ks) else up      (* ast.py:650-663 *)
+    | None => match star_search t (stars (xget xm p)) k None with         (* ast.py:665-685 *)
+              | Some q => if sd then (if exists_cls t (q ++ ks) then Some (q ++ ks) else up)
+                          else Some q
               | None => up
               end
     end.
@@ -115,17 +121,17 @@ Definition const_eff (xm : xmap) (p : path) (s : key) : option nat :=
    "neutral writes do not change results" *)
 Inductive prog (R : Type) : Type :=
 | Ret (r : R)
-| AskFind (rp : list key) (k : key) (cont : option path -> prog R)
+| AskFind (rp : list key) (k : key) (ks : list key) (cont : option path -> prog R)
 | AskConst (p : path) (s : key) (cont : option nat -> prog R)
 | AskData (p : path) (cont : option cdata -> prog R).
 Arguments Ret {R}. Arguments AskFind {R}. Arguments AskConst {R}. Arguments AskData {R}.
 
-Fixpoint exec {R} (pr : prog R) (t : tree) (xm : xmap) : R :=
+Fixpoint exec {R} (sd : bool) (pr : prog R) (t : tree) (xm : xmap) : R :=
   match pr with
   | Ret r => r
-  | AskFind rp k c => exec (c (find t xm rp k)) t xm
-  | AskConst p s c => exec (c (const_eff xm p s)) t xm
-  | AskData p c => exec (c (option_map dat (assoc p t))) t xm
+  | AskFind rp k ks c => exec sd (c (find sd t xm rp k ks)) t xm
+  | AskConst p s c => exec sd (c (const_eff xm p s)) t xm
+  | AskData p c => exec sd (c (option_map dat (assoc p t))) t xm
   end.
 
 (* the three exact writes *)
@@ -153,9 +159,11 @@ Definition opath_eqb (a b : option path) : bool :=
 Definition memo_soundb (t : tree) (xm : xmap) : bool :=
   forallb (fun pe => forallb (fun kq => opath_eqb (star_search t (stars (snd pe)) (fst kq) None) (Some (snd kq)))
                              (memo (snd pe))) xm.
-(* case: class paths of the tree, the imports (stars + memo) as they are before the query, queries
-   (reversed start path, name, class the real _find_class returned) *)
-Definition check_find (c : list path * xmap * list (list key * key * option path)) : bool :=
-  let '(ps, xm, qs) := c in
+(* case: the star-descends flag read from ast.py, class paths of the tree, the imports (stars + memo) as
+   they are before the queries, queries (reversed start path, first name, further names, class the real
+   _find_class returned) *)
+Definition check_find (c : bool * list path * xmap * list (list key * key * list key * option path)) : bool :=
+  let '(sd, ps, xm, qs) := c in
   let t := map (fun p => (p, Info (CD [] 0) None None)) ps in
-  memo_soundb t xm && forallb (fun q => opath_eqb (find t xm (fst (fst q)) (snd (fst q))) (snd q)) qs.
+  memo_soundb t xm &&
+  forallb (fun q => let '(rp, k, ks, r) := q in opath_eqb (find sd t xm rp k ks) r) qs.
